@@ -339,7 +339,8 @@ type diskTrack struct {
 
 	kfRequested time.Time
 	lastKf      time.Time
-	savedKf     *rtp.Packet
+	// the first packets of the keyframes that haven't been written yet
+	savedKf []*rtp.Packet
 }
 
 func newDiskConn(client *Client, up conn.Up, remoteTracks []conn.UpTrack) (*diskConn, error) {
@@ -526,7 +527,7 @@ func (t *diskTrack) writeRTP(p *rtp.Packet) error {
 	if len(codec) > 6 && strings.EqualFold(codec[:6], "video/") {
 		kf, _ := gcodecs.Keyframe(codec, p)
 		if kf {
-			t.savedKf = p
+			t.saveKeyframe(p)
 			t.lastKf = time.Now()
 			if !valid(t.origin) {
 				t.setOrigin(
@@ -551,6 +552,40 @@ func (t *diskTrack) writeRTP(p *rtp.Packet) error {
 	t.builder.Push(p)
 
 	return t.writeBuffered(false)
+}
+
+// saveKeyframe remembers the first packet of a keyframe until the
+// keyframe is written.  A keyframe may still be held back by the
+// samplebuilder when the next one starts arriving.
+// Called locked.
+func (t *diskTrack) saveKeyframe(p *rtp.Packet) {
+	for _, q := range t.savedKf {
+		if q.Timestamp == p.Timestamp {
+			return
+		}
+	}
+	t.savedKf = append(t.savedKf, p)
+}
+
+// getKeyframe returns the first packet of the keyframe with the given
+// timestamp, if any, and forgets the keyframes that precede it (samples
+// are written in order, so the list is bounded by the samplebuilder's
+// window).
+// Called locked.
+func (t *diskTrack) getKeyframe(ts uint32) *rtp.Packet {
+	var kf *rtp.Packet
+	n := 0
+	for _, q := range t.savedKf {
+		if q.Timestamp == ts {
+			kf = q
+		}
+		if int32(q.Timestamp-ts) >= 0 {
+			t.savedKf[n] = q
+			n++
+		}
+	}
+	t.savedKf = t.savedKf[:n]
+	return kf
 }
 
 // writeBuffered writes buffered samples to disk.  If force is true, then
@@ -587,15 +622,12 @@ func (t *diskTrack) writeBuffered(force bool) error {
 
 		var keyframe bool
 		if len(codec) > 6 && strings.EqualFold(codec[:6], "video/") {
-			if t.savedKf == nil {
-				keyframe = false
-			} else {
-				keyframe = (ts == t.savedKf.Timestamp)
-			}
+			kf := t.getKeyframe(ts)
+			keyframe = kf != nil
 
 			if keyframe {
 				w, h := gcodecs.KeyframeDimensions(
-					codec, t.savedKf,
+					codec, kf,
 				)
 				err := t.conn.initWriter(w, h, t, ts)
 				if err != nil {
